@@ -94,6 +94,14 @@ class Kernel:
         self.verdict = None
         self.main = None
         self.full = [] if knobs.get("full_trace") else None
+        # site-focused pre-emption: whenever execution reaches one of these (file, line) sites the
+        # running thread is held back until every other thread blocks (or hold_len decisions pass)
+        self.sites = {(a, int(b)) for a, b in knobs.get("sites", ())}
+        self.hold_len = int(knobs.get("hold_len", 3000))
+        self.site_budget = int(knobs.get("site_budget", 60))
+        self.site_hits = 0
+        self.held = None  # (tid, until_decision)
+        self.sites_seen = set() if knobs.get("record_sites") else None
         self.run_len = 0  # consecutive traced lines by one thread without a switch
         self.force_every = int(knobs.get("force_every", 400))  # models the GIL switch interval
 
@@ -216,6 +224,20 @@ class Kernel:
         pool = cands
         if pol == "starve" and self.victim is not None and len(cands) > 1 and self.d < self.starve_until:
             pool = [r for r in cands if r.tid != self.victim] or cands
+        if self.held is not None:
+            if self.d >= self.held[1]:
+                self.held = None
+            else:
+                rest = [r for r in pool if r.tid != self.held[0]]
+                if rest:
+                    pool = rest
+                    if me is not None and me.tid != self.held[0] and me in pool and not preempting and self.rng.random() < 0.85:
+                        # keep the other threads going: the held thread should meet a changed world
+                        if me is not default:
+                            self.tape_out[self.d] = me.tid
+                        return me
+                else:
+                    self.held = None
         if preempting:
             others = [r for r in pool if r is not me]
             pick = self.rng.choice(others) if others else default
@@ -258,12 +280,20 @@ class Kernel:
             me.baton.acquire()
 
     # pre-emption at a traced source line
-    def preempt(self):
+    def preempt(self, site=None):
         me = self.by_ident.get(_thread.get_ident())
         if me is None or self.cur is not me:
             return
         self._advance()
         self.run_len += 1
+        if self.sites and not self.replay and site in self.sites and self.site_hits < self.site_budget:
+            if self.held is None or self.held[0] != me.tid:
+                self.site_hits += 1
+                self.held = (me.tid, self.d + self.hold_len)
+                self.preempts += 1
+                self.counts["site_hold"] += 1
+                self.switch("S", preempting=True)
+                return
         if self.run_len >= self.force_every:
             self.run_len = 0
             self.counts["forced"] += 1
@@ -734,7 +764,12 @@ def _line_cb(code, line):
             me = k.by_ident.get(_thread.get_ident())
             if me is not None:
                 k.full.append(f"   t{me.tid} {code.co_filename.rsplit('/', 1)[-1]}:{line} {code.co_name}")
-        k.preempt()
+        site = None
+        if k.sites or k.sites_seen is not None:
+            site = (code.co_filename.rsplit("/", 1)[-1], line)
+            if k.sites_seen is not None:
+                k.sites_seen.add(site)
+        k.preempt(site)
 
 
 def collect_codes(module, out=None):
